@@ -6,6 +6,7 @@ import (
 	"github.com/glebziz/fs_db/internal/model"
 	"github.com/glebziz/fs_db/internal/model/core"
 	"github.com/glebziz/fs_db/internal/model/sequence"
+	"github.com/glebziz/fs_db/internal/verifhook"
 )
 
 func (u *UseCase) GetFiles(_ context.Context, txId string, filter model.FileFilter) ([]model.File, error) {
@@ -31,6 +32,7 @@ func (u *UseCase) GetFiles(_ context.Context, txId string, filter model.FileFilt
 }
 
 func (*UseCase) getFilesFromTx(tx *core.Transaction, beforeSeq *sequence.Seq) []model.File {
+	verifhook.At("core.getFiles.lookup")
 	tx.RLock()
 	defer tx.RUnlock()
 
